@@ -17,6 +17,10 @@ import (
 // ---- C02: chunking is deterministic: parallel = sequential = the rule ----
 
 func runC02(c *fw.Case) {
+	if desyncBin() != "" && c.ChanceAdded(1, procRate(800), "c02.proc") {
+		runC02Proc(c)
+		return
+	}
 	sz := genSizes(c)
 	limit := 40 * int(sz.max)
 	if limit > 65536 {
